@@ -221,25 +221,26 @@ Proof.
   intros c w o. destruct o as [p|p|p q|p q]; cbn [step_body].
   - unfold create_group. destruct (negb (validate_group_path p)); [reflexivity|].
     cbv zeta. destruct (parse_path _) as [parent nm]. destruct (negb (parent_registered w parent)); [reflexivity|].
+    destruct (precheck c w parent nm); [reflexivity|].
     match goal with |- context [link_to_parent ?c ?w ?a ?b ?d] =>
       pose proof (ltp_frame c w a b d) as F; destruct (link_to_parent c w a b d) as [w4 [|e]] end;
       cbn [fst clock set_groups set_objects set_snods set_heaps] in *; destruct F as (_ & _ & F); rewrite F; reflexivity.
   - unfold create_dataset. destruct (negb (validate_dataset_name p)); [reflexivity|].
-    destruct (parse_path p) as [parent nm].
+    destruct (parse_path p) as [parent nm]. destruct (precheck c w parent nm); [reflexivity|].
     match goal with |- context [link_to_parent ?c ?w ?a ?b ?d] => pose proof (ltp_frame c w a b d) as F end.
     destruct F as (_ & _ & F). cbv zeta in F. rewrite F. reflexivity.
   - unfold create_hard_link. destruct (negb (validate_link_path p)); [reflexivity|].
     destruct (negb (validate_link_path q)); [reflexivity|].
     destruct (parse_path p) as [parent nm]. destruct (negb (parent_registered w parent)); [reflexivity|].
     destruct (resolve_object_address w q) as [t|]; [|reflexivity].
-    destruct (alookup t (objects w)) as [o|]; [|reflexivity].
+    destruct (alookup t (objects w)) as [o|]; [|reflexivity]. destruct (precheck c w parent nm); [reflexivity|].
     match goal with |- context [link_to_parent ?c ?w ?a ?b ?d] =>
       pose proof (ltp_frame c w a b d) as F; destruct (link_to_parent c w a b d) as [w4 [|e]] end;
       cbn [fst clock set_groups set_objects set_snods set_heaps] in *; destruct F as (_ & _ & F); rewrite F; reflexivity.
   - unfold create_soft_link. destruct (negb (validate_link_path p)); [reflexivity|].
     destruct (negb (validate_soft_target q)); [reflexivity|].
     destruct (parse_path p) as [parent nm]. destruct (negb (parent_registered w parent)); [reflexivity|].
-    destruct (soft_max c <? blen nm + blen q); [reflexivity|].
+    destruct (soft_max c <? blen nm + blen q); [reflexivity|]. destruct (precheck c w parent nm); [reflexivity|].
     match goal with |- context [link_to_parent ?c ?w ?a ?b ?d] => pose proof (ltp_frame c w a b d) as F end.
     destruct F as (_ & _ & F). cbv zeta in F. rewrite F. reflexivity.
 Qed.
@@ -255,7 +256,7 @@ Proof.
   destruct o as [p|p|p q|p q]; cbn [step_body op_path_eff] in *.
   - unfold create_group. destruct (negb (validate_group_path p)); [assumption|]. cbv zeta.
     destruct (parse_path (if canon_group_key c then trim_suffix_slash p else p)) as [parent nm] eqn:PP. cbn [snd] in Hnm.
-    destruct (negb (parent_registered w parent)); [assumption|].
+    destruct (negb (parent_registered w parent)); [assumption|]. destruct (precheck c w parent nm); [assumption|].
     set (w3 := set_objects _ _).
     assert (I3 : InvB c (clock w + 1) w3).
     { unfold w3. apply invb_add_object; [|lia]. apply invb_add_group; try assumption; try lia.
@@ -271,14 +272,14 @@ Proof.
     + destruct (alookup (clock w) (snods w4)) eqn:X; [eauto|]. exfalso. apply K2; [|reflexivity].
       unfold w3. cbn [snods set_objects set_snods set_heaps]. rewrite alookup_aset_eq. discriminate.
   - unfold create_dataset. destruct (negb (validate_dataset_name p)); [assumption|].
-    destruct (parse_path p) as [parent nm] eqn:PP. cbn [snd] in Hnm.
+    destruct (parse_path p) as [parent nm] eqn:PP. cbn [snd] in Hnm. destruct (precheck c w parent nm); [assumption|].
     apply invb_ltp; [|assumption]. apply invb_add_object; [assumption | lia].
   - unfold create_hard_link. destruct (negb (validate_link_path p)); [assumption|].
     destruct (negb (validate_link_path q)); [assumption|].
     destruct (parse_path p) as [parent nm] eqn:PP. cbn [snd] in Hnm.
     destruct (negb (parent_registered w parent)); [assumption|].
     destruct (resolve_object_address w q) as [t|]; [|assumption].
-    destruct (alookup t (objects w)) as [o|] eqn:Ho; [|assumption].
+    destruct (alookup t (objects w)) as [o|] eqn:Ho; [|assumption]. destruct (precheck c w parent nm); [assumption|].
     assert (Ht : t < clock w + 1).
     { destruct (N.lt_ge_cases t (clock w)) as [X|X]; [lia|]. rewrite (i_fresh_o _ _ _ I t X) in Ho. discriminate. }
     match goal with |- context [link_to_parent ?c ?w1 ?a ?b ?d] =>
@@ -290,7 +291,7 @@ Proof.
     destruct (negb (validate_soft_target q)); [assumption|].
     destruct (parse_path p) as [parent nm] eqn:PP. cbn [snd] in Hnm.
     destruct (negb (parent_registered w parent)); [assumption|].
-    destruct (soft_max c <? blen nm + blen q); [assumption|].
+    destruct (soft_max c <? blen nm + blen q); [assumption|]. destruct (precheck c w parent nm); [assumption|].
     apply invb_ltp; [|assumption]. apply invb_add_object; [assumption | lia].
 Qed.
 
@@ -357,19 +358,21 @@ Proof.
   intros c w o w' e. destruct o as [p|p|p q|p q]; cbn [step_body].
   - unfold create_group. destruct (negb (validate_group_path p)); [intro H; inversion H; apply same_ns_refl|].
     cbv zeta. destruct (parse_path _) as [parent nm]. destruct (negb (parent_registered w parent)); [intro H; inversion H; apply same_ns_refl|].
+    destruct (precheck c w parent nm); [intro H; inversion H; apply same_ns_refl|].
     match goal with |- context [link_to_parent ?c ?w3 ?a ?b ?d] =>
       destruct (link_to_parent c w3 a b d) as [w4 [|e4]] eqn:L end; intro H; inversion H; subst.
     apply ltp_err_unchanged in L. subst. split; [reflexivity|]. intros k Hk.
     cbn [heaps snods objects set_objects set_snods set_heaps].
     rewrite !alookup_aset_neq by lia. auto.
   - unfold create_dataset. destruct (negb (validate_dataset_name p)); [intro H; inversion H; apply same_ns_refl|].
-    destruct (parse_path p) as [parent nm]. intro L. apply ltp_err_unchanged in L. subst.
+    destruct (parse_path p) as [parent nm]. destruct (precheck c w parent nm); [intro H; inversion H; apply same_ns_refl|]. intro L. apply ltp_err_unchanged in L. subst.
     split; [reflexivity|]. intros k Hk. cbn [heaps snods objects set_objects]. rewrite !alookup_aset_neq by lia. auto.
   - unfold create_hard_link. destruct (negb (validate_link_path p)); [intro H; inversion H; apply same_ns_refl|].
     destruct (negb (validate_link_path q)); [intro H; inversion H; apply same_ns_refl|].
     destruct (parse_path p) as [parent nm]. destruct (negb (parent_registered w parent)); [intro H; inversion H; apply same_ns_refl|].
     destruct (resolve_object_address w q) as [t|]; [|intro H; inversion H; apply same_ns_refl].
     destruct (alookup t (objects w)) as [o|] eqn:Ho; [|intro H; inversion H; apply same_ns_refl].
+    destruct (precheck c w parent nm); [intro H; inversion H; apply same_ns_refl|].
     match goal with |- context [link_to_parent ?c ?w1 ?a ?b ?d] =>
       destruct (link_to_parent c w1 a b d) as [w2 [|e2]] eqn:L end; intro H; inversion H; subst.
     apply ltp_err_unchanged in L. subst. split; [reflexivity|]. intros k Hk.
@@ -378,7 +381,7 @@ Proof.
   - unfold create_soft_link. destruct (negb (validate_link_path p)); [intro H; inversion H; apply same_ns_refl|].
     destruct (negb (validate_soft_target q)); [intro H; inversion H; apply same_ns_refl|].
     destruct (parse_path p) as [parent nm]. destruct (negb (parent_registered w parent)); [intro H; inversion H; apply same_ns_refl|].
-    destruct (soft_max c <? blen nm + blen q); [intro H; inversion H; apply same_ns_refl|].
+    destruct (soft_max c <? blen nm + blen q); [intro H; inversion H; apply same_ns_refl|]. destruct (precheck c w parent nm); [intro H; inversion H; apply same_ns_refl|].
     intro L. apply ltp_err_unchanged in L. subst.
     split; [reflexivity|]. intros k Hk. cbn [heaps snods objects set_objects]. rewrite !alookup_aset_neq by lia. auto.
 Qed.
@@ -392,17 +395,18 @@ Proof.
   destruct o as [p|p|p q|p q]; [| |discriminate|]; cbn [step_body] in H.
   - unfold create_group in H. destruct (negb (validate_group_path p)); [inversion H; auto|].
     cbv zeta in H. destruct (parse_path _) as [parent nm]. destruct (negb (parent_registered w parent)); [inversion H; auto|].
+    destruct (precheck c w parent nm); [inversion H; auto|].
     match type of H with context [link_to_parent ?c ?w3 ?a ?b ?d] =>
       destruct (link_to_parent c w3 a b d) as [w4 [|e4]] eqn:L end; inversion H; subst.
     apply ltp_err_unchanged in L. subst. intros k Hk. cbn [objects set_objects set_snods set_heaps].
     rewrite alookup_aset_neq by lia. reflexivity.
   - unfold create_dataset in H. destruct (negb (validate_dataset_name p)); [inversion H; auto|].
-    destruct (parse_path p) as [parent nm]. apply ltp_err_unchanged in H. subst. intros k Hk.
+    destruct (parse_path p) as [parent nm]. destruct (precheck c w parent nm); [inversion H; auto|]. apply ltp_err_unchanged in H. subst. intros k Hk.
     cbn [objects set_objects]. rewrite alookup_aset_neq by lia. reflexivity.
   - unfold create_soft_link in H. destruct (negb (validate_link_path p)); [inversion H; auto|].
     destruct (negb (validate_soft_target q)); [inversion H; auto|].
     destruct (parse_path p) as [parent nm]. destruct (negb (parent_registered w parent)); [inversion H; auto|].
-    destruct (soft_max c <? blen nm + blen q); [inversion H; auto|].
+    destruct (soft_max c <? blen nm + blen q); [inversion H; auto|]. destruct (precheck c w parent nm); [inversion H; auto|].
     apply ltp_err_unchanged in H. subst. intros k Hk.
     cbn [objects set_objects]. rewrite alookup_aset_neq by lia. reflexivity.
 Qed.
@@ -421,27 +425,27 @@ Proof.
   intros c w o. unfold op_parent, op_link_name. destruct o as [p|p|p q|p q]; cbn [step_body op_path_eff].
   - unfold create_group. destruct (negb (validate_group_path p)); [left; eauto|]. cbv zeta.
     destruct (parse_path (if canon_group_key c then trim_suffix_slash p else p)) as [parent nm].
-    destruct (negb (parent_registered w parent)); [left; eauto|].
+    destruct (negb (parent_registered w parent)); [left; eauto|]. destruct (precheck c w parent nm); [left; eauto|].
     right. match goal with |- context [link_to_parent ?c ?w3 ?a ?b ?d] => exists w3, d end.
     split; [reflexivity|]. split.
     + intros k Hk. cbn [heaps snods set_objects set_snods set_heaps]. rewrite !alookup_aset_neq by congruence. auto.
     + cbn [fst snd]. match goal with |- context [link_to_parent ?c ?w3 ?a ?b ?d] => destruct (link_to_parent c w3 a b d) as [w4 [|e]] end; reflexivity.
   - unfold create_dataset. destruct (negb (validate_dataset_name p)); [left; eauto|].
-    destruct (parse_path p) as [parent nm]. right.
+    destruct (parse_path p) as [parent nm]. destruct (precheck c w parent nm); [left; eauto|]. right.
     match goal with |- context [link_to_parent ?c ?w3 ?a ?b ?d] => exists w3, d end.
     split; [reflexivity|]. split; [intros; cbn [heaps snods set_objects]; auto | reflexivity].
   - unfold create_hard_link. destruct (negb (validate_link_path p)); [left; eauto|].
     destruct (negb (validate_link_path q)); [left; eauto|].
     destruct (parse_path p) as [parent nm]. destruct (negb (parent_registered w parent)); [left; eauto|].
     destruct (resolve_object_address w q) as [t|]; [|left; eauto].
-    destruct (alookup t (objects w)) as [o|]; [|left; eauto].
+    destruct (alookup t (objects w)) as [o|]; [|left; eauto]. destruct (precheck c w parent nm); [left; eauto|].
     right. match goal with |- context [link_to_parent ?c ?w3 ?a ?b ?d] => exists w3, d end.
     split; [reflexivity|]. split; [intros; cbn [heaps snods set_objects]; auto|].
     cbn [fst snd]. match goal with |- context [link_to_parent ?c ?w3 ?a ?b ?d] => destruct (link_to_parent c w3 a b d) as [w4 [|e]] end; reflexivity.
   - unfold create_soft_link. destruct (negb (validate_link_path p)); [left; eauto|].
     destruct (negb (validate_soft_target q)); [left; eauto|].
     destruct (parse_path p) as [parent nm]. destruct (negb (parent_registered w parent)); [left; eauto|].
-    destruct (soft_max c <? blen nm + blen q); [left; eauto|].
+    destruct (soft_max c <? blen nm + blen q); [left; eauto|]. destruct (precheck c w parent nm); [left; eauto|].
     right. match goal with |- context [link_to_parent ?c ?w3 ?a ?b ?d] => exists w3, d end.
     split; [reflexivity|]. split; [intros; cbn [heaps snods set_objects]; auto | reflexivity].
 Qed.
